@@ -422,6 +422,8 @@ class Ctx:
         seed = set()
         for f in extra:
             seed |= self._vars_of(f)
+        if not seed:
+            return cons
         vs = [self._vars_of(f) for f in cons]
         keep = [False] * len(cons)
         changed = True
